@@ -157,6 +157,28 @@ def pf_bad(b: bytes) -> bool:
     return pf_bad(pf_rest(b))
 
 
+# ---- the receive side over a whole stream of chunks (C01): the per-call contract of data_received, iterated ---------
+def cat_chunks(chunks: "seq[bytes]", k: int) -> bytes:
+    """The byte stream formed by the first k received chunks."""
+    if k <= 0:
+        return b""
+    return cat_chunks(chunks, k - 1) + chunks[k - 1]
+
+
+def run_view(chunks: "seq[bytes]", k: int) -> bytes:
+    """Buffer contents after k calls of data_received, as its contract states them (retains-exactly-the-partial-tail)."""
+    if k <= 0:
+        return b""
+    return pf_tail(run_view(chunks, k - 1) + chunks[k - 1])
+
+
+def run_msgs(chunks: "seq[bytes]", k: int) -> "seq[tuple[int,bytes]]":
+    """Packets handed to the connection by the first k calls, as the contract states them (delivers-exactly-the-complete-frames)."""
+    if k <= 0:
+        return ()
+    return run_msgs(chunks, k - 1) + pf_msgs(run_view(chunks, k - 1) + chunks[k - 1])
+
+
 # ---------------------------------------------------------------------------------------------------------
 # Noise framing (C03/C04): 0x01, 16-bit big-endian length, that many bytes
 # ---------------------------------------------------------------------------------------------------------
